@@ -299,6 +299,11 @@ pub fn drain(s: &mut In) -> bool {
         s.conn.send_raw(&b);
         return true;
     }
+    if !s.window_open {
+        s.window_open = true;
+        s.conn.window(true);
+        return true;
+    }
     if s.conn.gates.open_all(GateOutcome::Ok) {
         return true;
     }
